@@ -8,6 +8,7 @@ import (
 	"encoding/binary"
 	"errors"
 	"fmt"
+	"math"
 	"sort"
 
 	"verifharness/internal/idlgen"
@@ -86,6 +87,11 @@ func IsSet(f *idlgen.SField, v *values.Value) bool {
 				b = f.Default.X
 			}
 			return !bytes.Equal(a, b)
+		}
+		if f.Type.Kind == idlgen.RDouble && v.K == values.KDouble && f.Default.K == values.KDouble {
+			// the generated IsSet is Go's `!=` between float64s: -0 == +0 (a field holding the other zero is unset and
+			// reads back as the declared default), NaN != NaN (a NaN field is always set)
+			return math.Float64frombits(v.D) != math.Float64frombits(f.Default.D)
 		}
 		return !values.Equal(v, f.Default)
 	}
